@@ -263,6 +263,38 @@ def model_inputs(eng, ctx, model):
     return vals
 
 
+def _perturbed_models(eng, ctx, neg, inputs, tries=12):
+    import random
+    import z3
+    from vf.engine import scalars as S
+    rng = random.Random(12345)
+    out = []
+    for t in range(tries):
+        rel = 10.0 ** rng.choice([-9, -6, -4, -3, -2])
+        cand = {}
+        for name, (v, lo, hi) in ctx.inputs.items():
+            x = inputs[name]
+            y = x * (1.0 + rng.uniform(-rel, rel)) + rng.uniform(-rel, rel) * (1.0 if t % 2 else 0.0)
+            if lo is not None:
+                y = max(y, float(lo))
+            if hi is not None:
+                y = min(y, float(hi))
+            cand[name] = y
+        eng.solver.push()
+        try:
+            eng.solver.add(neg)
+            for name, (v, lo, hi) in ctx.inputs.items():
+                eng.solver.add(v.z == S.zval(Fraction(cand[name])))
+            r = eng.solver.check()
+        finally:
+            eng.solver.pop()
+        if r == z3.sat:
+            out.append(cand)
+            if len(out) >= 3:
+                break
+    return out
+
+
 def run_obligation(prop, ob_dict, known):
     """Returns a result dict; never raises."""
     from vf.engine import install, engine as E, scalars as S
@@ -352,6 +384,15 @@ def run_obligation(prop, ob_dict, known):
                     inputs = model_inputs(eng, ctx, model)
                     rep = _RUNNER.run(prop, ob.scenario, ob.params, inputs)
                     failed = [c for c, _ in rep['failed']]
+                    if not (rep['status'] == 'ok' and clause in failed):
+                        # the model may sit exactly on a decision boundary where float rounding differs from real
+                        # arithmetic: look for an interior point of the violating region near it
+                        alt = _perturbed_models(eng, ctx, neg, inputs)
+                        for inp2 in alt:
+                            rep2 = _RUNNER.run(prop, ob.scenario, ob.params, inp2)
+                            if rep2['status'] == 'ok' and clause in [c for c, _ in rep2['failed']]:
+                                inputs, rep, failed = inp2, rep2, [c for c, _ in rep2['failed']]
+                                break
                     record = {'property': prop, 'scenario': ob.scenario, 'params': ob.params, 'clause': clause,
                               'inputs': inputs, 'info': str(info) if info is not None else None,
                               'replay': rep}
@@ -390,6 +431,8 @@ def run_obligation(prop, ob_dict, known):
     if res['unknown'] and res['status'] == 'ok':
         res['status'] = 'inconclusive'
         res['error'] = '%d solver queries returned unknown' % res['unknown']
+    confirmed_clauses = set(v['clause'] for v in res['violations']) | set(k['record']['clause'] for k in res['known'])
+    res['unconfirmed'] = [u for u in res['unconfirmed'] if u['clause'] not in confirmed_clauses]
     if res['unconfirmed'] and res['status'] == 'ok':
         res['status'] = 'error'
         res['error'] = 'solver counterexample did not reproduce on the real code'
